@@ -169,15 +169,44 @@ def kw(e: Event, name: str, default=None):
         a = e.data.get("args", ())
         if i < len(a):
             return a[i]
+    ps = _repo_params(e)   # ... or to an in-repo function
+    if ps and name in ps:
+        i = ps.index(name)
+        a = e.data.get("args", ())
+        if i < len(a):
+            return a[i]
     return default
 
 
+def _repo_params(e: Event):
+    """positional parameter names of an in-repo callee as the call site sees them (without self for a bound method)"""
+    from ..alg import REPO_SIGS
+    callee = e.data.get("callee") or ""
+    sig = REPO_SIGS.get(callee)
+    if sig is None and e.data.get("constructs"):
+        sig = REPO_SIGS.get(e.data["constructs"] + ".__init__")
+        return list(sig[1:]) if sig else None
+    if sig is None:
+        return None
+    f = e.data.get("fterm")
+    bound = e.data.get("recv") is not None or (f is not None and f.op in ("boundmethod", "attr"))
+    return list(sig[1:]) if (bound and sig and sig[0] in ("self", "cls")) else list(sig)
+
+
 def arg(e: Event, i: int, name: str = None, default=None):
+    """The i-th argument of a call, wherever it was written: by position, or by the keyword of that position (given as `name`,
+    or read off the signature of an in-repo callee)."""
     a = e.data.get("args", ())
     if i is not None and i < len(a):
         return a[i]
     if name is not None:
         return kw(e, name, default)
+    if i is not None:
+        ps = _repo_params(e)
+        if ps and i < len(ps):
+            for k, v in e.data.get("kwargs", ()):
+                if k == ps[i]:
+                    return v
     return default
 
 
